@@ -273,9 +273,17 @@ class Engine(ExprMixin, StmtMixin, CallMixin, PrimMixin, NumpyMixin, BOMixin):
 
             def rec(s, k, acc):
                 if k == len(specs):
-                    yield s, s.alloc(HObj(cls, acc, fresh=fresh))
+                    flds = {a: b for a, b in acc.items() if not a.startswith("[")}
+                    items = {ast.literal_eval(a[1:-1]): b for a, b in acc.items() if a.startswith("[")}
+                    yield s, s.alloc(HObj(cls, flds, fresh=fresh, items=items))
                     return
-                fname, _, fty = specs[k].partition(":")
+                sp = specs[k]
+                if sp.startswith("["):
+                    # dict item of a dict-like object:  ['key']:type
+                    close = sp.index("]")
+                    fname, fty = sp[:close + 1], sp[close + 2:]
+                else:
+                    fname, _, fty = sp.partition(":")
                 for s1, v in self.instantiate(s, fty, name + "." + fname.strip(), fresh):
                     a2 = dict(acc)
                     a2[fname.strip()] = v
@@ -456,6 +464,11 @@ def _verify_variant(self, f, c, var, vi, info):
                     cur = fr.modifiable.get(root.id)
                     if cur is not True:
                         fr.modifiable[root.id] = (cur or set()) | {fld}
+                    # an array held in a listed attribute / item may also be mutated in place
+                    if isinstance(h, HObj):
+                        held = h.items.get(fld, h.fields.get(fld))
+                        if isinstance(held, Ref) and isinstance(st.get(held), HArr):
+                            fr.modifiable[self.root(st, held).id] = True
                 else:
                     fr.modifiable[root.id] = True
                     if isinstance(h, HStruct):
